@@ -20,7 +20,7 @@ RULE = ("cases = (type expression, column position first/middle/last, following 
         "'f: T') enumerated exhaustively to depth 2 and sampled to depth 3 (quick) / 5 (thorough), every inner comma with/without a "
         "blank, brackets glued or spaced, constructor names upper/lower case. Non-trivial = the type has a size, a suffix, two "
         "words or brackets (all cases); distinct = distinct (DDL, mode)."
-        " Added after seeded defects: size x array-suffix product, zero sizes, the type placed inside hive PARTITIONED BY (...) lists.")
+        " Added after seeded defects: size x array-suffix product, zero sizes, the type placed inside hive PARTITIONED BY (...) lists, the column under test named with delimiters (\"x\", `x`, [x]), struct field names between back quotes.")
 ASSUMPTIONS = ["leaves inside <...> are plain type names (no (n) inside angle brackets)", "type strings are compared after removing white space",
                "calibrated conventions: 'x ARRAY' is reported as 'x[]', 'varchar(10)[]' as type 'varchar[]' size 10, (n CHAR) as size 'n CHAR'"]
 MIN_EVENTS = {"statements": 100, "run_return": 100}
@@ -94,7 +94,8 @@ def render_angle(t, rng, style):
         return name("ARRAY") + style["open"] + render_angle(t[1], rng, style) + style["close"]
     if k == "map":
         return name("MAP") + style["open"] + t[1] + comma() + render_angle(t[2], rng, style) + style["close"]
-    parts = [f + t[2] + render_angle(ft, rng, style) for f, ft in t[1]]
+    q = style.get("field_quote", "")
+    parts = [q + f + q + t[2] + render_angle(ft, rng, style) for f, ft in t[1]]
     out = parts[0]
     for p in parts[1:]:
         out += comma() + p
@@ -131,9 +132,12 @@ NEIGHBOUR_FORMS = {"plain": "c0 int", "generated": "c0 int AS (c2 + 1)", "genera
                    "default_paren": "c0 int DEFAULT (1)", "check": "c0 int CHECK (c0 > 1)"}
 
 
-def build(type_text, pos, opt, first="plain"):
+NAME_STYLES = {"plain": "x%d", "dq": '"x%d"', "bt": "`x%d`", "br": "[x%d]", "dq_mixed": '"Xy%d"'}
+
+
+def build(type_text, pos, opt, first="plain", name_style="plain"):
     cols = [NEIGHBOUR_FORMS.get(first, "c0 int") if pos else "c0 int", "c1 varchar(5) NOT NULL", "c2 date"]
-    cols[pos] = "x%d %s%s" % (pos, type_text, opt)
+    cols[pos] = "%s %s%s" % (NAME_STYLES[name_style] % pos, type_text, opt)
     return "CREATE TABLE s.t (\n  " + ",\n  ".join(cols) + "\n);\n"
 
 
@@ -143,7 +147,8 @@ def check_case(ctx, case):
     ctx.evaluated()
     tt, pos, (opt, oexp), mode = case["type_text"], case["pos"], case["option"], case["mode"]
     first = case.get("first", "plain")
-    ddl = build(tt, pos, opt, first)
+    ns = case.get("name_style", "plain")
+    ddl = build(tt, pos, opt, first, ns)
     # listed defect: an inline CHECK earlier in the column list leaves the lexer's check flag set, later < > are not typed as brackets
     kf_check = "C09:angle-type-after-check-column" if (first == "check" and pos and "<" in tt) else None
     ctx.nontrivial_case(digest(ddl + mode))
@@ -160,7 +165,7 @@ def check_case(ctx, case):
     cols = r[1][0]["columns"]
     names = [c.get("name") for c in cols]
     want = ["c0", "c1", "c2"]
-    want[pos] = "x%d" % pos
+    want[pos] = NAME_STYLES[ns] % pos
     if names != want:
         ctx.violation("columns_merged_or_lost", dict(case, ddl=ddl), {"observed": names, "expected": want}, kf=kf_check)
         return
@@ -182,7 +187,7 @@ def check_case(ctx, case):
             ctx.violation("option_after_type_lost", dict(case, ddl=ddl), {"option": k, "observed": c.get(k, "<missing>"), "expected": v})
             break
     # differential: the same table with a plain type
-    b = parse(build("int", pos, opt, first), None, output_mode=mode)
+    b = parse(build("int", pos, opt, first, ns), None, output_mode=mode)
     if b[0] == "ok" and len(b[1]) == 1:
         mine, base = r[1][0], b[1][0]
         a = [dict(col) for col in mine["columns"]]
@@ -259,8 +264,10 @@ def check_partition_case(ctx, case):
 
 
 def angle_case(t, rng, style, pos, option, mode, gen):
+    if rng.random() < 0.2:
+        style = dict(style, field_quote="`")          # struct field names between back quotes (Hive / BigQuery spelling)
     text = render_angle(t, rng, style)
-    return {"gen": gen, "type_text": text, "exp_type": text, "exp_size": None, "pos": pos, "option": option, "mode": mode, "depth": depth_of(t),
+    return {"gen": gen, "name_style": rng.choice(["plain", "plain", "plain", "dq", "bt", "br", "dq_mixed"]), "type_text": text, "exp_type": text, "exp_size": None, "pos": pos, "option": option, "mode": mode, "depth": depth_of(t),
             "prefix": rng.choice(PREFIXES), "first": rng.choice(["plain", "plain", "generated", "generated_always", "default_paren", "check"])}
 
 
